@@ -3,7 +3,6 @@ TLC enumerates programs (shape, name_mapping overlays) in slices, checks the mod
 loader and dumper agree, precedences) and emits every program with the model's verdict on its own probe-input family;
 vf/layoutreplay.py builds each program with the real name_mapping on a real class and runs every probe / test object
 through the generated loader / dumper in the three debug modes."""
-from __future__ import annotations
 
 import json
 
@@ -32,7 +31,57 @@ def run(ctx: Ctx) -> None:
     slices, mo = slices_for(ctx)
     total = run_slices(ctx, slices, mo)
     report(ctx, total, "C03")
+    unhashable_literal_defaults(ctx)
     ctx.exhaustive = True
+
+
+def unhashable_literal_defaults(ctx: Ctx) -> None:
+    """Layout.tla Omitted: "omit_default removes exactly the fields whose value equals their default" - also when the declared
+    default is a literal that cannot be hashed (model kinds other than dataclasses allow `b: list = []`); the slices above write
+    such defaults as factories only"""
+    from typing import Any, NamedTuple
+
+    import attr
+
+    from adaptix import DebugTrail, Retort, name_mapping
+    n = 0
+    for dname, dflt, other in (("list", [], [1]), ("dict", {}, {"k": 1}), ("set", set(), {1}), ("bytearray", bytearray(), bytearray(b"x"))):
+        class NT(NamedTuple):
+            a: int
+            b: Any = dflt
+
+        @attr.s(auto_attribs=True)
+        class AT:
+            a: int
+            b: Any = dflt
+
+        class PlainInit:
+            def __init__(self, a: int, b: Any = dflt):
+                self.a, self.b = a, b
+        for kind, cls in (("namedtuple", NT), ("attrs", AT)):
+            for dt in DebugTrail:
+                n += 1
+                sig = {"what": "omit_default_with_unhashable_literal_default", "kind": kind}
+                try:
+                    r = Retort(recipe=[name_mapping(cls, omit_default=True)], debug_trail=dt)
+                    at_default, not_default = r.dump(cls(1)), r.dump(cls(1, other))
+                except Exception as e:  # noqa: BLE001
+                    ctx.violation({**sig, "exc": type(e).__name__}, f"{kind} with the default {dname}() literal, omit_default=True, {dt.name}: "
+                                  f"{type(e).__name__}: {str(e)[:120]}", {"kind": kind, "default": dname})
+                    continue
+                if at_default != {"a": 1} or set(not_default) != {"a", "b"}:
+                    ctx.violation(sig, f"{kind} with the default {dname}() literal, omit_default=True, {dt.name}: dump(at default) = {at_default!r}, "
+                                  f"dump(other value) = {not_default!r}", {"kind": kind, "default": dname})
+        for dt in DebugTrail:       # the loader side of the same default: an absent key gives the declared default
+            n += 1
+            try:
+                got = Retort(debug_trail=dt).load({"a": 1}, PlainInit)
+                if got.b != dflt:
+                    ctx.violation({"what": "unhashable_literal_default_not_delivered"}, f"class with __init__(b={dname}()): loaded b = {got.b!r}", {})
+            except Exception as e:  # noqa: BLE001
+                ctx.violation({"what": "unhashable_literal_default_not_delivered", "exc": type(e).__name__},
+                              f"class with __init__(b={dname}()), {dt.name}: {type(e).__name__}: {str(e)[:120]}", {})
+    ctx.replayed += n
 
 
 def replay(path: str) -> int:
